@@ -1,7 +1,7 @@
 """C18 - part writers: the upload is initiated exactly once; sinks honour their contract.
 
 A. schedules: 2-3 concurrent first writes through the lazily initialised S3 writer run under the deterministic
-   schedule controller (vf/sched.py) - in-process (one shared writer object + local lock) and cluster-coordinated
+   schedule controller (vf/sched.py) - in-process (one shared writer object + local lock, pre-registered or created on first use) and cluster-coordinated
    (one writer copy per worker, modelled linearizable distributed Variable + Lock) - and the history recorded by a
    fake S3 client with one global log is checked: exactly one create, every upload_part and the complete under that id,
    no writer call raised, no deadlock.  Exhaustive DFS within a preemption bound + seeded random walks; the thorough
@@ -84,13 +84,18 @@ def _setup(mode: str, fake: FakeS3):
     import distributed
     from odc.geo.cog import _s3
 
-    saved = (_s3._dask_client, _s3.MultiPartUpload.s3_client, distributed.Lock, distributed.Variable, dict(_s3._state))
+    saved = (_s3._dask_client, _s3.MultiPartUpload.s3_client, distributed.Lock, distributed.Variable, dict(_s3._state), _s3.Lock)
     _s3.MultiPartUpload.s3_client = lambda self: fake
     _REG["vars"].clear()
     _REG["locks"].clear()
     if mode == "local":
         _s3._dask_client = lambda: None
         _s3._state["mpu_lock"] = sched.CoopLock("local-lock")
+    elif mode == "local-cold":
+        # first use in the process: the lock registry is empty and the writers create the lock themselves
+        _s3._dask_client = lambda: None
+        _s3._state.clear()
+        _s3.Lock = lambda: sched.CoopLock("local-lock")
     else:
         cl = FakeClient()
         _s3._dask_client = lambda: cl
@@ -101,6 +106,7 @@ def _setup(mode: str, fake: FakeS3):
         _s3._dask_client, _s3.MultiPartUpload.s3_client, distributed.Lock, distributed.Variable = saved[:4]
         _s3._state.clear()
         _s3._state.update(saved[4])
+        _s3.Lock = saved[5]
     return undo
 
 
@@ -111,7 +117,7 @@ def make_scenario(mode: str, nworkers: int, second_write: bool):
     fake = FakeS3(hook=sched.yield_here)
     undo = _setup(mode, fake)
     results = {}
-    if mode == "local":
+    if mode in ("local", "local-cold"):
         w = DelayedS3Writer(MultiPartUpload("bkt", "key.tif"), {"ContentType": "image/tiff"})
         writers = [w] * nworkers
     else:
@@ -147,7 +153,7 @@ def judge_schedule(mon: Monitor, ctrl, ctx, cls: str) -> None:
         parts = [p for st, r in results.values() if st == "ok" for p in r]
         fin_exc = None
         if parts:
-            fw = ctx["writers"][0] if mode == "local" else DelayedS3Writer(MultiPartUpload("bkt", "key.tif"), {"ContentType": "image/tiff"})
+            fw = ctx["writers"][0] if mode.startswith("local") else DelayedS3Writer(MultiPartUpload("bkt", "key.tif"), {"ContentType": "image/tiff"})
             _, fin_exc = call(fw.finalise, sorted(parts, key=lambda p: p["PartNumber"]))
         creates = [e for e in fake.log if e[0] == "create"]
         ups = [e for e in fake.log if e[0] == "upload_part"]
@@ -158,10 +164,10 @@ def judge_schedule(mon: Monitor, ctrl, ctx, cls: str) -> None:
         ok_ids = ok_once and all(e[3] in ids for e in ups) and all(e[3] in ids for e in comps)
         ok_noexc = not excs and fin_exc is None and len(results) == ctx["n"]
         ok_all = ok_once and ok_ids and ok_noexc and len(comps) == 1 and len(ups) == len(parts)
-        key = ("s3-local-double-initiate" if mode == "local" else "s3-cluster-double-initiate") if len(creates) > 1 else "s3-writer-raised" if not ok_noexc else "s3-wrong-upload-id" if not ok_ids else "s3-history"
-        if not ok_noexc and mode == "local" and any(isinstance(e, AssertionError) for e in excs.values()):
+        key = ("s3-local-double-initiate" if mode.startswith("local") else "s3-cluster-double-initiate") if len(creates) > 1 else "s3-writer-raised" if not ok_noexc else "s3-wrong-upload-id" if not ok_ids else "s3-history"
+        if not ok_noexc and mode.startswith("local") and any(isinstance(e, AssertionError) for e in excs.values()):
             key = "s3-local-double-initiate"
-        if not ok_noexc and mode != "local" and any(isinstance(e, TypeError) for e in list(excs.values()) + [fin_exc]):
+        if not ok_noexc and not mode.startswith("local") and any(isinstance(e, TypeError) for e in list(excs.values()) + [fin_exc]):
             key = "s3-cluster-lock-signature"
         mon.check(ok_all, "schedule", lambda: wit({"creates": len(creates), "uploads": len(ups), "completes": len(comps), "exceptions": {i: repr(e)[:200] for i, e in excs.items()}, "finalise_exc": fin_exc}),
                   key=key, cls=cls, sig=hsig(mode, ctx["n"], tuple(choices)), sample=wit({"preemptions": ctrl.preemptions()}))
@@ -221,7 +227,7 @@ def explore(mon: Monitor, mode: str, n: int, second: bool, bound: int, cap: int)
 
 def random_walks(mon: Monitor, rng: random.Random, count: int) -> None:
     for _ in range(count):
-        mode = rng.choice(["local", "cluster-prepared", "cluster-unprepared"])
+        mode = rng.choice(["local", "local-cold", "cluster-prepared", "cluster-unprepared"])
         n = rng.choice([2, 3, 3])
         second = rng.random() < 0.3
         r = random.Random(rng.getrandbits(48))
@@ -372,10 +378,10 @@ def run(mon: Monitor, tier: str, seed: int, shard: int, nshards: int) -> None:
         aff = None
     sched.watch(watch_codes())
     try:
-        plans = [("local", 2, False, 2, 3000), ("cluster-prepared", 2, False, 2, 2000), ("cluster-unprepared", 2, False, 2, 2000), ("local", 3, False, 1, 1500), ("cluster-prepared", 3, False, 1, 1200),
+        plans = [("local", 2, False, 2, 3000), ("local-cold", 2, False, 2, 2500), ("cluster-prepared", 2, False, 2, 2000), ("cluster-unprepared", 2, False, 2, 2000), ("local", 3, False, 1, 1500), ("cluster-prepared", 3, False, 1, 1200),
                  ("local", 2, True, 1, 600)]
         if not q:
-            plans = [("local", 2, False, 3, 60000), ("cluster-prepared", 2, False, 3, 60000), ("cluster-unprepared", 2, False, 3, 60000), ("local", 3, False, 2, 60000), ("cluster-prepared", 3, False, 2, 60000),
+            plans = [("local", 2, False, 3, 60000), ("local-cold", 2, False, 3, 60000), ("local-cold", 3, False, 2, 60000), ("cluster-prepared", 2, False, 3, 60000), ("cluster-unprepared", 2, False, 3, 60000), ("local", 3, False, 2, 60000), ("cluster-prepared", 3, False, 2, 60000),
                      ("cluster-unprepared", 3, False, 2, 60000), ("local", 2, True, 2, 20000), ("cluster-prepared", 2, True, 2, 20000)]
         for k, (mode, n, second, bound, cap) in enumerate(plans):
             if nshards > 1 and k % nshards != shard:
@@ -410,7 +416,7 @@ def run(mon: Monitor, tier: str, seed: int, shard: int, nshards: int) -> None:
         real_cluster(mon, rng, 30)
     floors = [("schedule", 1500 if q else 3000), ("filesink", 200), ("limits", 30), ("filesink|default|empty-part", 5), ("filesink|relocated", 20), ("limits|MPUFileSink", 25)]
     if q or nshards == 1:
-        floors += [("schedule|local|n=2|dfs", 200), ("schedule|cluster-prepared|n=2|dfs", 200), ("schedule|cluster-unprepared|n=2|dfs", 200), ("schedule|local|n=3|dfs", 200), ("real-cluster", 2)]
+        floors += [("schedule|local|n=2|dfs", 200), ("schedule|cluster-prepared|n=2|dfs", 200), ("schedule|cluster-unprepared|n=2|dfs", 200), ("schedule|local|n=3|dfs", 200), ("schedule|local-cold|n=2|dfs", 200), ("real-cluster", 2)]
     for pt, n in floors:
         mon.floor(pt, n)
 
